@@ -97,11 +97,7 @@ def run(idx: Index, rep: Report, tier: str) -> None:
     rets = [r for r in walk_no_nested(ii.node) if isinstance(r, ast.Return)]
     ok = any(isinstance(r.value, ast.Tuple) and len(r.value.elts) == 3 and norm(r.value.elts[2]) == "interval.is_left_open()" for r in rets)
     rep.check(ok, rule2, "_instantiate_interval propagates interval.is_left_open()", ii.loc(), construct=norm(rets[0].value) if rets else "", function=ii.qualname)
-    si = idx.func(TT + "._states_in_interval")
-    sic = cfg_of(si)
-    bool_params = {a.arg for a in si.node.args.args + si.node.args.kwonlyargs if a.annotation is not None and norm(a.annotation).strip("\"'") == "bool"}
-    ts = [t for t in sic.nodes if t.kind == "test" and (norm(t.ast) in bool_params or (isinstance(t.ast, ast.UnaryOp) and norm(t.ast.operand) in bool_params))]
-    rep.check(bool(ts), rule2, "_states_in_interval branches on open_interval", si.loc(ts[0].ast) if ts else si.loc(), construct=norm(ts[0].ast) if ts else "", detail="" if ts else "left-open and closed intervals are sampled identically", function=si.qualname)
+    # (how _states_in_interval samples closed and left-open intervals is decided exhaustively by C05.7)
 
     # ---- (3) conflicts
     rule3 = "C05.3 T2 simultaneous-effects-conflict"
